@@ -89,3 +89,40 @@ package broker
 //@   loop 3 invariant result != nil && fresh(result) && keepsMapLen() && keepsMem("string") && -1 <= rangeidx(3) && rangeidx(3) < len(subscriptions)
 //@   loop 4 invariant result != nil && fresh(result) && keepsMapLen() && keepsMem("string") && meta != nil && storedMetaOK(meta) && -1 <= rangeidx(4) && rangeidx(4) < len(meta.Topics)
 //@   loop 5 invariant result != nil && fresh(result) && keepsMapLen() && keepsMem("string") && meta != nil && storedMetaOK(meta) && -1 <= rangeidx(4) && rangeidx(4) < len(meta.Topics) && -1 <= rangeidx(5) && rangeidx(5) < len(topic.Partitions) && topic.Topic != nil && fresh(partitions)
+
+// Group invariant for assignments: every entry belongs to a current member and names only topics that member
+// subscribes to, and only a Stable group has assignments at all (they are computed by the sync that makes the
+// group Stable and dropped by every rebalance).
+//@ spec func assignOK(s *groupState) bool = (s.state != groupStateStable ==> (forall k string :: !has(s.assignments, k))) && (forall k string, i int :: has(s.assignments, k) && 0 <= i && i < len(mapval(s.assignments, k)) ==> has(s.members, k) && subscribes(mapval(s.members, k), mapval(s.assignments, k)[i].Name))
+
+// SyncGroup: the assignment of a generation is computed once (by the leader's sync, while the map is still empty,
+// in CompletingRebalance); afterwards every sync hands out the stored entry of the caller and changes nothing.
+//@ func (c *GroupCoordinator) SyncGroup
+//@   requires has(c.groups, req.Group) ==> assignOK(mapval(c.groups, req.Group))
+//@   at assignPartitions#1 before assert [C12.sync_computes_assignment_once] len(state.assignments) == 0 && state.state == groupStateCompletingRebalance && req.MemberID == state.leaderID
+//@   at encodeAssignment#1 before assert [C12.sync_hands_out_stored_entry] state == c.groups[req.Group] && sameSlice(arg0, state.assignments[req.MemberID])
+//@   ensures [C12.sync_assignment_respects_subscriptions] err == nil && old(has(c.groups, req.Group)) ==> has(c.groups, req.Group) && assignOK(mapval(c.groups, req.Group))
+//@   at persistGroupLocked#1 before assert [C12.sync_keeps_computed_assignment] old(has(c.groups, req.Group)) && old(len(mapval(c.groups, req.Group).assignments)) != 0 ==> mapval(c.groups, req.Group).assignments == old(mapval(c.groups, req.Group).assignments) && keepsMap("string", "[]assignmentTopic") && keepsMem("assignmentTopic") && keepsMem("int32")
+
+// parseSubscriptionTopics: the subscription list is a new slice (or nil); no existing string memory is written.
+//@ func (c *GroupCoordinator) parseSubscriptionTopics
+//@   opaque_strings
+//@   merge_branches
+//@   returns_fresh
+//@   ensures [C12.parse_keeps_other_subscriptions] keepsMem("string")
+//@   loop 1 invariant keepsMem("string") && fresh(topics) && 0 <= read && read <= len(data)
+
+// JoinGroup keeps the assignment invariant of the addressed group: a member that (re)joins with a different
+// subscription must not keep an assignment computed for the old one.
+//@ func (c *GroupCoordinator) JoinGroup
+//@   reveal subscribes
+//@   requires has(c.groups, req.Group) ==> assignOK(mapval(c.groups, req.Group))
+//@   at persistGroupLocked#1 before assert [C12.join_only_stable_group_has_assignments] old(has(c.groups, req.Group)) && state.state != groupStateStable ==> (forall k string :: !has(state.assignments, k))
+//@   at persistGroupLocked#1 before assert [C12.join_stable_keeps_assignment] old(has(c.groups, req.Group)) && state.state == groupStateStable ==> state.assignments == old(state.assignments) && keepsMap("string", "[]assignmentTopic") && keepsMem("assignmentTopic") && keepsMap("string", "*memberState")
+//@   at persistGroupLocked#1 before assert [C12.join_stable_keeps_subscriptions] old(has(c.groups, req.Group)) && state.state == groupStateStable ==> (forall m *memberState, i int :: !fresh(m) && 0 <= i && i < len(m.topics) ==> len(m.topics) == old(len(m.topics)) && m.topics[i] == old(m.topics[i]))
+//@   at persistGroupLocked#1 before assert [C12.join_keeps_assignment_consistent] old(has(c.groups, req.Group)) ==> has(c.groups, req.Group) && state == mapval(c.groups, req.Group) && assignOK(state)
+
+//@ func sameTopics
+//@   opaque_strings
+//@   ensures [C12.same_topics_def] result == (len(a) == len(b) && forall i int :: 0 <= i && i < len(a) ==> a[i] == b[i])
+//@   loop 1 invariant len(a) == len(b) && -1 <= rangeidx(1) && rangeidx(1) < len(a) && (forall j int :: 0 <= j && j <= rangeidx(1) ==> a[j] == b[j])
